@@ -732,16 +732,42 @@ impl Exec {
             "lib" => {
                 // the op carries the library's identity string `dir/…/name`; LibraryInfo::name is its last component
                 // (so that different libraries can share a name), the path is "/lib/" + identity
+                // an optional `#<variant>` suffix (`d<hex>` debug id, `c<hex>` code id, `a<digit>` arch, `n<digit>`
+                // debug name, in this order) changes only those fields: name and path stay the same
                 let ident = unhex_str(w[2])?;
-                let name = ident.rsplit('/').next().unwrap_or("").to_string();
+                let (base, variant) = match ident.split_once('#') {
+                    Some((b, v)) => (b.to_string(), v.to_string()),
+                    None => (ident.clone(), String::new()),
+                };
+                let name = base.rsplit('/').next().unwrap_or("").to_string();
+                let mut debug_id = DebugId::nil();
+                let mut code_id = None;
+                let mut arch = None;
+                let mut debug_name = name.clone();
+                let vb: Vec<char> = variant.chars().collect();
+                let mut i = 0;
+                while i + 1 < vb.len() {
+                    let k = vb[i + 1];
+                    match vb[i] {
+                        'd' => debug_id = DebugId::from_breakpad(&format!("{}0", k.to_string().repeat(32))).ok()?,
+                        'c' => code_id = Some(format!("c{k}")),
+                        'a' => arch = Some(format!("arch{k}")),
+                        'n' => debug_name = format!("{name}.dbg{k}"),
+                        _ => return None,
+                    }
+                    i += 2;
+                }
+                if !variant.is_empty() {
+                    stats.bump("libs_with_variant_fields");
+                }
                 let h = self.p.add_lib(LibraryInfo {
                     name: name.clone(),
-                    debug_name: name.clone(),
-                    path: format!("/lib/{ident}"),
-                    debug_path: format!("/lib/{ident}"),
-                    debug_id: DebugId::nil(),
-                    code_id: None,
-                    arch: None,
+                    debug_name,
+                    path: format!("/lib/{base}"),
+                    debug_path: format!("/lib/{base}"),
+                    debug_id,
+                    code_id,
+                    arch,
                 });
                 self.set(w[1], Val::Lib(h));
                 Some(format!("h {}", nums(&h)))
@@ -1075,8 +1101,35 @@ fn lib_ident(l: &Value) -> String {
     let path = l.get("path").and_then(|x| x.as_str()).unwrap_or("?");
     let name = l.get("name").and_then(|x| x.as_str()).unwrap_or("?");
     let ident = path.strip_prefix("/lib/").unwrap_or("?");
-    if ident.rsplit('/').next().unwrap_or("") == name && l.get("debugName").and_then(|x| x.as_str()) == Some(name) && l.get("debugPath").and_then(|x| x.as_str()) == Some(path) {
-        hexs(ident)
+    // the `#<variant>` suffix, reconstructed from the fields it stands for
+    let mut variant = String::new();
+    let bp = l.get("breakpadId").and_then(|x| x.as_str()).unwrap_or("?");
+    if bp != "000000000000000000000000000000000" {
+        let k = bp.chars().next().unwrap_or('?').to_ascii_lowercase();
+        if bp.len() == 33 && bp[..32].chars().all(|c| c.to_ascii_lowercase() == k) && bp.ends_with('0') {
+            variant.push_str(&format!("d{k}"));
+        } else {
+            variant.push_str("d?");
+        }
+    }
+    match l.get("codeId") {
+        Some(Value::Null) | None => {}
+        Some(v) => variant.push_str(&format!("c{}", v.as_str().and_then(|s| s.strip_prefix('c')).unwrap_or("?"))),
+    }
+    match l.get("arch") {
+        Some(Value::Null) | None => {}
+        Some(v) => variant.push_str(&format!("a{}", v.as_str().and_then(|s| s.strip_prefix("arch")).unwrap_or("?"))),
+    }
+    let dn = l.get("debugName").and_then(|x| x.as_str()).unwrap_or("?");
+    if dn != name {
+        variant.push_str(&format!("n{}", dn.strip_prefix(&format!("{name}.dbg")).unwrap_or("?")));
+    }
+    if ident.rsplit('/').next().unwrap_or("") == name && l.get("debugPath").and_then(|x| x.as_str()) == Some(path) {
+        if variant.is_empty() {
+            hexs(ident)
+        } else {
+            hexs(&format!("{ident}#{variant}"))
+        }
     } else {
         hexs(&format!("?{name}"))
     }
